@@ -11,6 +11,7 @@ field is assigned on all paths').
     Aa  self.a := 1            Ay  self.y := Y(2)
     Ra  def r<k>: Int := self.a        Ry  def r<k>: Y := self.y        Rv  def r<k>: Int := self.y.v
     Ny  self.y.v := 3          (assignment THROUGH the field y: reads y, assigns nothing of K)
+    Lk  def k: Int := 5        (a LOCAL of the current block)        Uk  def j<k>: Int := k   (a use of the local: needs k visible)
     I[s]     if c then s                    (what s assigns is not assigned afterwards)
     E[s|t]   if c then s else t             (assigned afterwards = assigned in both)
 
@@ -21,7 +22,7 @@ with c = True and c = False: no AttributeError / NameError / TypeError).
 """
 
 IND = "    "
-SIMPLE = ["Aa", "Ay", "Ra", "Ry", "Rv", "Ny"]
+SIMPLE = ["Aa", "Ay", "Ra", "Ry", "Rv", "Ny", "Lk", "Uk"]
 
 
 def sequences(n, depth):
@@ -44,23 +45,29 @@ def sequences(n, depth):
                             yield (("E", s1, s2),) + rest
 
 
-def run_model(seq, assigned, faults, counter):
+def run_model(seq, assigned, faults, counter, local=False):
+    """`local`: is the local k visible here (a definition inside a branch ends with the branch)"""
     for st in seq:
         idx = counter[0]
         counter[0] += 1
         if isinstance(st, tuple):
             if st[0] == "I":
-                run_model(st[1], set(assigned), faults, counter)
+                run_model(st[1], set(assigned), faults, counter, local)
             else:
                 a1, a2 = set(assigned), set(assigned)
-                run_model(st[1], a1, faults, counter)
-                run_model(st[2], a2, faults, counter)
+                run_model(st[1], a1, faults, counter, local)
+                run_model(st[2], a2, faults, counter, local)
                 assigned |= (a1 & a2)
             continue
         if st == "Aa":
             assigned.add("a")
         elif st == "Ay":
             assigned.add("y")
+        elif st == "Lk":
+            local = True
+        elif st == "Uk":
+            if not local:
+                faults.append((idx, "read-unassigned", st))
         else:
             need = "a" if st == "Ra" else "y"
             if need not in assigned:
@@ -82,7 +89,7 @@ def render_seq(seq, ind, lines, counter, line_of):
                 render_seq(st[2], ind + 1, lines, counter, line_of)
             continue
         lines.append(p + {"Aa": "self.a := 1", "Ay": "self.y := Y(2)", "Ra": "def r%d: Int := self.a" % idx, "Ry": "def r%d: Y := self.y" % idx,
-                          "Rv": "def r%d: Int := self.y.v" % idx, "Ny": "self.y.v := 3"}[st])
+                          "Rv": "def r%d: Int := self.y.v" % idx, "Ny": "self.y.v := 3", "Lk": "def k: Int := 5", "Uk": "def j%d: Int := k" % idx}[st])
 
 
 def name_of(seq):
@@ -109,12 +116,23 @@ def cases(prop, tier):
     fam = prop.lower() + ".ctor"
     nmax, depth = (4, 1) if tier == "quick" else (5, 2)
     n = 0
-    for total in range(1, nmax + 1):
-        for seq in sequences(total, depth):
+    def all_sequences():
+        for total in range(1, nmax + 1):
+            for seq in sequences(total, depth):
+                yield total, seq
+        if tier == "quick":
+            # one size more for the shape 'if-else block, then a use of the local': what the branches define must have ended
+            for seq in sequences(4, 1):
+                if len(seq) == 1 and isinstance(seq[0], tuple) and seq[0][0] == "E":
+                    yield 5, seq + ("Uk",)
+                    yield 6, ("Ay",) + seq + ("Uk",)   # ... with the other field assigned first, so that the use is the only possible fault
+
+    for total, seq in all_sequences():
+        if True:
             faults = []
             assigned = run_model(seq, set(), faults, [0])
             end_missing = sorted({"a", "y"} - assigned)
-            if len(faults) > 1 and total == nmax:
+            if len(faults) > 1 and total >= nmax:
                 continue
             if faults:
                 judge, reason = "C09", "read-unassigned"
